@@ -186,9 +186,23 @@ def text_cmp(t1, t2):
 
 
 def tmpdir():
+    """Scratch directory of this check run (created by the first caller -- the main process -- and removed at its exit;
+    forked workers inherit it through the environment)."""
+    import atexit
+    import shutil
+    import tempfile
+    p = os.environ.get("VERIF_C32_TMP")
+    if p and os.path.isdir(p):
+        return p
     d = "/dev/shm" if os.path.isdir("/dev/shm") else "/tmp"
-    p = os.path.join(d, "verif_c32_%d" % os.getpid())
-    os.makedirs(p, exist_ok=True)
+    p = tempfile.mkdtemp(prefix="verif_c3x_", dir=d)
+    os.environ["VERIF_C32_TMP"] = p
+    owner = os.getpid()
+
+    def _rm():
+        if os.getpid() == owner:
+            shutil.rmtree(p, ignore_errors=True)
+    atexit.register(_rm)
     return p
 
 
